@@ -47,7 +47,7 @@ for c in CONT:
     for f in (FORMS_SINGLE if c in SINGLE else FORMS_MIXED):
         if c == "AX" and f in ("Bvv", "Bgv", "Bvg"):
             continue  # raise in felupe / test space not defined (see ASSUMPTIONS)
-        if c in ("M3AX", "M3PS") and f == "B3":
+        if c == "M3AX" and f == "B3":
             continue
         AXIS.append([c, f])
 
@@ -202,6 +202,8 @@ def check(ax, case, rec):
             continue
         if c == "M3AX" and i == 0 and j > 0:
             tu = ()  # axisymmetric displacement / scalar blocks take (3, 3, q, c) integrands (no component axis)
+        if c == "M3PS" and f == "B3" and i > 0 and j == 0 and (d3 or c == "M3AX"):
+            tv = ()  # scalar / plane-strain displacement blocks as the materials return them: (3, 3, q, c), trimmed by felupe
         fun = integrand(rng, tv + tu, nq, nc, bcm)
         funs.append(fun)
         blk = ra.bilinear(fun, fields[i], fields[j], dV, grads[i], grads[j], first=v0)
